@@ -943,8 +943,60 @@ def _refute(label, assumptions, negated_goal, timeout_ms=60000, want_smt=False, 
                 model = s2.model() if r2 == "sat" else None
         except z3.Z3Exception:
             pass
+    if r == "unknown":
+        m = _random_point_witness(assumptions, negated_goal)
+        if m is not None:
+            r, model = "sat", m
     STATS.note(r, dt)
     return Verdict(label, r, dt, model, smt)
+
+
+def _random_point_witness(assumptions, negated_goal, tries=60):
+    """z3 answered 'unknown' (typically 'a large polynomial is non-zero somewhere').  Evaluate the query at random small rational
+    points: if all assumptions and the negated goal evaluate to true at one of them, that point is a genuine model (checked by
+    z3's own evaluator on the substituted, variable-free formula) - the verdict becomes 'sat' with this witness, which is then
+    replayed on the real code like any other.  Only for queries without uninterpreted function applications."""
+    import random
+    from fractions import Fraction
+    fs = list(assumptions) + [negated_goal]
+    names = {}
+    for f in fs:
+        st, seen = [f], set()
+        while st:
+            t = st.pop()
+            i = t.get_id()
+            if i in seen:
+                continue
+            seen.add(i)
+            if z3.is_app(t):
+                if t.decl().kind() == z3.Z3_OP_UNINTERPRETED:
+                    if t.num_args() > 0:
+                        return None
+                    if z3.is_real(t) or z3.is_int(t):
+                        names[t.decl().name()] = t
+                    else:
+                        return None
+                st.extend(t.children())
+    if not names:
+        return None
+    rng = random.Random(12345)
+    vs = list(names.values())
+    for k in range(tries):
+        # (moderate magnitudes: the witness is replayed on the real code in floating point, where e.g. fixed-point iterations
+        # converge only for reasonably scaled inputs)
+        vals = [Fraction(rng.randint(1, 6) * rng.choice((1, 1, -1)), rng.choice((2, 3, 4))) for _ in vs]
+        sub = [(v, z3.RealVal(str(x)) if z3.is_real(v) else z3.IntVal(int(x))) for v, x in zip(vs, vals)]
+        try:
+            if all(z3.is_true(z3.simplify(z3.substitute(f, *sub))) for f in fs):
+                s = z3.Solver()
+                s.set("timeout", 5000)
+                for v, (_, x) in zip(vs, sub):
+                    s.add(v == x)
+                if str(s.check()) == "sat":
+                    return s.model()
+        except z3.Z3Exception:
+            return None
+    return None
 
 
 def neq_any(pairs):
